@@ -38,9 +38,11 @@ Record cfg := {
   c_confirm_recomputes : bool;  (* ConfirmBatch verifies against GetCheckpoint(id in force now), not the
                                    stored BytesToSign *)
   c_genesis_archives_live : bool; (* InitGenesis archives the BytesToSign of every batch it imports *)
-  c_redeploy_reissues : bool    (* on EVMActivatedChainEvent (compass activated) every open batch of the chain gets
+  c_redeploy_reissues : bool;   (* on EVMActivatedChainEvent (compass activated) every open batch of the chain gets
                                    its BytesToSign recomputed for the event's id, stored AND archived
                                    (refreshOpenBatchCheckpoints) *)
+  c_stale_publishes : bool      (* ActivateChainReferenceID publishes the activation event also when it changed
+                                   nothing (contract version not above the active one) *)
 }.
 
 Definition code_cfg : cfg := {|
@@ -51,7 +53,8 @@ Definition code_cfg : cfg := {|
   c_queries_stored := Gen.C13.queries_serve_stored;
   c_confirm_recomputes := Gen.C13.confirm_verifies_recomputed;
   c_genesis_archives_live := Gen.C13.genesis_archives_live;
-  c_redeploy_reissues := Gen.C13.redeploy_reissues_and_archives |}.
+  c_redeploy_reissues := Gen.C13.redeploy_reissues_and_archives;
+  c_stale_publishes := Gen.C13.stale_activation_still_publishes_event |}.
 
 (** The estimate that GetCheckpoint packs: the dummy when GasEstimate = 0. *)
 Definition eff_est (e : Z) : Z := if e =? 0 then Gen.C13.dummy_gas_estimate else e.
@@ -119,7 +122,8 @@ Section Model.
   | OQuery (key : Z)                     (* a relayer reads batch [key] through one of the batch queries *)
   | OGenesis                             (* ExportGenesis, chain restarted with InitGenesis on an empty store *)
   | OStaleActivate (chain tid : Z).      (* ActivateChainReferenceID with a contract version not above the active
-                                            one: chain info untouched, the activation event is published all the same *)
+                                            one: chain info untouched; skyway hears of it only if evm publishes the
+                                            activation event all the same ([c_stale_publishes]) *)
 
   (** The checkpoint of a stored batch under the deployment id in force NOW (what ConfirmBatch
       computes; [None]: chain unknown). *)
@@ -172,6 +176,10 @@ Section Model.
          st_archive := pub ++ st_archive s; st_issued := pub ++ st_issued s; st_ever := pub ++ st_ever s;
          st_reg := st_reg s; st_jailed := st_jailed s |}
     else s.
+
+  (** what skyway does on a stale activation: its subscriber runs only if the event is published *)
+  Definition refresh_if_announced (s : state) (chain tid : Z) : state :=
+    if c_stale_publishes g then refresh s chain tid else s.
 
   Definition exec (s : state) (o : op) : state * res :=
     match o with
@@ -246,7 +254,7 @@ Section Model.
     | OStaleActivate chain tid =>
       match chain_tid (st_chains s) chain with
       | None => (s, RErrChain)
-      | Some _ => (refresh s chain tid, ROk)
+      | Some _ => (refresh_if_announced s chain tid, ROk)
       end
     end.
 
